@@ -18,7 +18,9 @@ def varuint_contract():
     return Contract(
         PT + "_varuint_to_bytes", params={"value": "int"}, result="bytes", tags=["C02"],
         requires=[("nonneg", "value >= 0")],
-        ensures=[("minimal-varint", "result == enc_varuint(old(value))")],
+        ensures=[("minimal-varint", "result == enc_varuint(old(value))"),
+                 # side condition of A-CACHE: the function is wrapped in lru_cache, so its results are shared between calls and must be immutable
+                 ("result-is-an-immutable-bytes-object", "type(result) is bytes")],
         pre_hints="unfold(enc_varuint(value))",
         loops={"loop#1": dict(
             invariant=["value >= 0",
@@ -72,7 +74,43 @@ def targets(eng):
         contract_target(varuint_contract(), bounded=nf.bounded_varuint, replay=nf.replay_varuint),
         contract_target(write_bytes_contract()),
         contract_target(plain_write_packets_contract(), bounded=nf.bounded_plain_write),
-    ] + lts
+    ] + lts + _noise_targets() + _conn_targets()
+
+
+def _conn_targets():
+    """send_messages: the batch handed to the frame helper (own engine instance with the connection model)."""
+    from pyvc.engine import Engine
+    out = []
+    for k in (0, 1, 2, 3):
+        def run(eng, opts, k=k):
+            from contracts import conn
+            e2 = Engine()
+            ts = [t for t in conn.targets_for(e2, ["send_messages"], ["C02"]) if t.name.endswith(f"[arity{k}]")]
+            ts[0].run(e2, opts)
+            eng.obligations.extend(e2.obligations)
+            eng.assumptions_used |= e2.assumptions_used
+        from contracts import native_noise
+        out.append(Target(f"connection.APIConnection.send_messages[arity{k}]", "contract", run, replay=native_noise.replay_f9,
+                          functions=["aioesphomeapi.connection.APIConnection.send_messages"]))
+    return out
+
+
+def _noise_targets():
+    """Noise framing of outgoing packets (own engine instance: the Noise model differs from the plaintext set-up)."""
+    from pyvc.engine import Engine
+    out = []
+    for name in ("write_packets", "lemmas"):
+        def run(eng, opts, name=name):
+            from contracts import noise
+            e2 = Engine()
+            for t in noise.targets_for(e2, [name], ["C02"]):
+                t.run(e2, opts)
+            eng.obligations.extend(e2.obligations)
+            eng.assumptions_used |= e2.assumptions_used
+        from contracts import native_noise
+        out.append(Target("_frame_helper.noise.APINoiseFrameHelper." + name, "contract", run, bounded=native_noise.bounded_noise_write,
+                          functions=["aioesphomeapi._frame_helper.noise.APINoiseFrameHelper.write_packets", "aioesphomeapi._frame_helper.noise.EncryptCipher.encrypt"]))
+    return out
 
 PTF = "aioesphomeapi/_frame_helper/plain_text.py"
 MUTANTS = [
